@@ -5,6 +5,7 @@ import (
 	"fmt"
 	"io"
 	"os"
+	"path"
 	"path/filepath"
 	"strings"
 
@@ -54,6 +55,25 @@ func validObjectName(name string) bool {
 func invalidObjectName(name string) error {
 	return gofakes3.ErrorMessagef(gofakes3.ErrInvalidArgument,
 		"object key %q cannot be stored by this backend: keys must not contain empty, '.' or '..' path segments", name)
+}
+
+// removeEmptyDirs removes dir (a slash-separated path relative to root) and
+// its parents, up to but not including root, for as long as they are empty.
+// Deleting the last object below "a/b/" must not leave "a/b/" behind: the
+// empty directory would be listed as a common prefix and would keep the bucket
+// from being deleted.
+func removeEmptyDirs(fs afero.Fs, root, dir string) {
+	for dir != "." && dir != "/" && dir != "" {
+		full := filepath.FromSlash(path.Join(root, dir))
+		entries, err := afero.ReadDir(fs, full)
+		if err != nil || len(entries) > 0 {
+			return
+		}
+		if err := fs.Remove(full); err != nil {
+			return
+		}
+		dir = path.Dir(dir)
+	}
 }
 
 // removeAll removes name and everything beneath it by walking the tree rather
